@@ -26,6 +26,8 @@ RFILE = "ethosu/vela/range_set.py"
 def run(repo, rep):
     rep.clause("C04-a", "MemoryAccessSet.conflicts reports RAW, WAR and WAW (and only those); RangeSet keeps the sorted order its sweep relies on")
     rep.clause("C04-b", "every address-bearing field of the API operation classes enters the access set with the right direction; LUT/SHRAM ranges present")
+    rep.clause("C04-k", "block dependency: the operator kinds that consume the whole IFM depth agree between the stripe transform and get_ifm_ofm_block_depth (Conv2D and REDUCE_SUM)")
+    rule_depth_consuming_kinds(repo, rep)
     rep.clause("C04-j", "the emitted BLOCKDEP always derives from calc_blockdep for the operation and its predecessor kernel (no shortcut under a side condition)")
     rule_blockdep_source(repo, rep)
     rep.clause("C04-h", "the SHRAM extents that hazards are tracked on are the hardware's: which banks are reserved for the LUT decides whether a LUT DMA conflicts with a kernel's accumulators [rule shared with C15-c]")
@@ -854,3 +856,31 @@ def rule_blockdep_source(repo, rep):
     other = [l for l in leaves if l not in good]
     rep.check(bool(good) and not other, "C04-j", site, "the emitted BLOCKDEP is calc_blockdep(arch, prev_op, npu_op), clamped to the maximum, on every path",
               f"other sources of the emitted value: {other[:3]}: a constant chosen under a side condition skips the overlap calculation (after KERNEL_WAIT 1 the previous kernel is still running, its consumer would start on unwritten blocks)")
+
+
+def rule_depth_consuming_kinds(repo, rep):
+    """(k) calc_blockdep asks get_ifm_ofm_block_depth how many IFM channels the first jobs of the consumer read. For operators that
+    consume the whole IFM depth for every OFM element that is the IFM block depth, for depth-wise ones the OFM depth. Which operators
+    consume the whole depth is stated by a sibling, Box.transform_with_strides_and_skirt: ConvolutionMxN, VectorProduct *and* ReduceSum
+    ('a dot product or sum over the entire IFM'). In the API's terms: Conv2D and Pooling with sub-type REDUCE_SUM. Both must agree: a
+    REDUCE_SUM judged by its OFM depth (1) is given BLOCKDEP 1 where its first job reads channels the producer's last block writes."""
+    hs = repo.mod("high_level_command_stream")
+    tf = hs.func("Box.transform_with_strides_and_skirt")
+    kinds = set()
+    for c in ast.walk(tf):
+        if isinstance(c, ast.Compare) and len(c.ops) == 1 and isinstance(c.ops[0], ast.In) and str(norm(c.left)) == "npu_block_type" and isinstance(c.comparators[0], (ast.Tuple, ast.List, ast.Set)):
+            kinds = {str(norm(e)).split(".")[-1] for e in c.comparators[0].elts}
+    if not kinds:
+        raise AnalysisError("transform_with_strides_and_skirt: the set of operator kinds that read the whole IFM depth was not found")
+    ru = repo.mod("register_command_stream_util")
+    f = ru.func("get_ifm_ofm_block_depth")
+    site = "ethosu/vela/register_command_stream_util.py:get_ifm_ofm_block_depth"
+    txt = " ".join(str(norm(x)) for x in ast.walk(f) if isinstance(x, (ast.Compare, ast.BoolOp)))
+    need = []
+    if kinds & {"ConvolutionMxN", "VectorProduct"}:
+        need.append(("NpuOperationType.Conv2D", "Conv2D"))
+    if "ReduceSum" in kinds:
+        need.append(("NpuPoolingOp.REDUCE_SUM", "REDUCE_SUM"))
+    missing = [nm for full, nm in need if full not in txt]
+    rep.check(not missing, "C04-k", site, f"the operators judged by their IFM block depth are those that read the whole IFM depth ({sorted(kinds)} in the stripe transform)",
+              f"{missing} is judged by its OFM depth: ABS (two depth blocks) -> REDUCE_SUM gets BLOCKDEP 1, the first REDUCE_SUM job reads channels 16..31 which the producer's last block writes (RAW)")
